@@ -9,6 +9,18 @@ CLAIMS = {
   text="every closure created by the compile functions of the arithmetic, bitwise, comparison, equality and unary operators and of variable reads (binary_ops.go, binary_relops.go, binary_eqlneq.go, unary_ops.go, identifier.go: about 890 closures) is proved to return the Go operator applied to its operands in the kind selected on its path, to call the operand closures once and in Go's order, to read the slot of the right frame / storage class / width, and to have no other effect; for all operand values and all environments",
   note="trusted: reflect.Value accessor specs, xreflect.Type.Kind purity, environment invariant (FileEnv), operand well-formedness, go/ssa front end, SMT solvers. Not covered: shortcut returns (x+0, x*0, power-of-two rewrites), shifts, &&/||, interface comparisons, dispatch, composition over expression trees (paper induction)",
   ref="DESIGN.md section 5 C01, section 4"),
+ "C02": dict(
+  text="every closure created by the compile functions of assignment and compound assignment to a variable (var_set.go, var_ops.go: varSetConst, varSetExpr, var{Add,Sub,Mul,Quo,Rem,And,Or,Xor,Andnot}{Const,Expr}; about 5400 obligations) is proved to store Go's result of the operation, in the variable's kind, into the slot of the right frame / storage class / width, to evaluate the right-hand side exactly once, to return the next statement, and to leave every other slot, frame and heap cell unchanged; for all values and all environments",
+  note="trusted: reflect.Value accessor/setter specs, double-rounding and narrow-division lemmas, xreflect.Type.Kind purity, go/ssa front end, SMT solvers. Not covered (no contract): places other than variables (place_*.go), shift-assignments, varQuoPow2, setVar/setPlace dispatch, multi-assignment ordering (assign2/assignMulti), IncDec, non-basic kinds of varSet* (closure partial), composition with the rest of the program",
+  ref="DESIGN.md section 5 C02"),
+ "C06": dict(
+  text="second sentence of the property (a recycled frame is never observable): freeEnv, newEnv, NewEnv, FreeEnv, freeEnv4Func, MarkUsedByClosure are verified against a representation invariant of Run.Pool (poolOK: pooled frames are distinct, not captured by a closure, no escaped slot address, detached) - a frame marked UsedByClosure is never pooled and keeps its slots; a frame whose slot address was taken gives up its Ints array before pooling; newEnv hands out a frame that is no longer in the pool; memory safety of the pool indices",
+  note="trusted: go/ssa front end, SMT solvers, heap model (type-based field arrays). Not covered: first sentence (call results equal compiled Go: call*.go / func*ret*.go specialisations), that each function-creating closure marks its frame and frees it exactly once (typestate over func0ret0..), newEnv4Func, Var.Address setting IntAddressTaken",
+  ref="DESIGN.md section 5 C06"),
+ "C14": dict(
+  text="second sentence of the property (slot storage of globals never relocates after an address was taken, however many declarations follow): CompBinds.NewBind, Comp.NewBind (slot counter never exceeds IntBindMax, complex128 takes two slots), Interp.prepareEnv (never reallocates Env.Ints once IntAddressTaken, never raises the internal error, keeps all slots) and a call-site assertion in Interp.CompileAst (IntBindMax is refreshed before compiling) are verified for all inputs; lemma replRound composes them over one REPL round",
+  note="trusted: go/ssa front end, SMT solvers; assumed: Comp.Compile reaches NewBind only through Comp.NewBind and leaves IntBindMax alone (paper step tying the contracts to lemma replRound). Not covered: first sentence (each evaluation sees earlier effects; results equal compiled Go) - whole-program",
+  ref="DESIGN.md section 5 C14"),
  "C37": dict(
   text="binarySearch, prefixSearch, removeCmd, Cmds.Lookup/Add/Del are verified against requires/ensures/loop-invariant contracts for all inputs (unbounded slices, arbitrary strings): unique prefix / exact name / ambiguity / no match exactly as stated, termination, no out-of-range access, frame conditions",
   note="trusted: string order/prefix axioms, assumed contract of sortCmdList (sort.Slice), errors.New, strings.Join, go/ssa front end, SMT solvers; Interp.Cmd fall-through and the text of the ambiguity message are not under contract",
